@@ -32,7 +32,7 @@ func init() {
 		Modes: []Mode{{Name: "log", Weight: 6}, {Name: "raw", Weight: 3}, {Name: "goclient", Weight: 2}},
 		Gen:   genC08, Run: runC08,
 		QuickRuns: 8000, ThoroughRuns: 400000,
-		Rule: "plan = (window W in {2 s, 30 s, 2 min}, clean-up period in {1 s, 10 s, 1 min (production creator)}, 2..4 sessions with rooms, history of namespace / room / except broadcasts and direct emits (text and binary) with fake timestamps spread over up to 3 windows, per session a disconnect point and a reconnect time on either side of the window incl. exactly W, optional concurrent broadcasters, stall parameters) from VERIF_SEED; " +
+		Rule: "[raw mode also: ConnectionStateRecovery.UseMiddlewares with a middleware of 0..40 ms, broadcasts every 4 ms across the instant of the return with the admission stalled 5-40 ms, a second return from the same offset; every emission has an invocation and a return time and one under way at the return must arrive exactly once, from the log or live] plan = (window W in {2 s, 30 s, 2 min}, clean-up period in {1 s, 10 s, 1 min (production creator)}, 2..4 sessions with rooms, history of namespace / room / except broadcasts and direct emits (text and binary) with fake timestamps spread over up to 3 windows, per session a disconnect point and a reconnect time on either side of the window incl. exactly W, optional concurrent broadcasters, stall parameters) from VERIF_SEED; " +
 			"non-trivial = a restore within the window had to replay at least one packet and skip at least one (filtered or before the offset), or a restore was refused for expiry; distinct = distinct history digest",
 		Assumptions: []string{
 			"a restore may be refused when the session is older than W or when the packet named by the offset is itself older than W (the cleaner may have dropped it); at exactly W either answer is accepted",
